@@ -782,6 +782,10 @@ class Walker:
       return Poly.atom(Atom("map", elt, bv2, as_poly(src_f)))
     vals = [as_poly(self.ev(x, sub)) for x in elt_nodes]
     elt = vals[0] if len(vals) == 1 else P("seq", *vals)
+    ra_ = as_poly(it).as_atom() if not isinstance(it, (Seq, Const, tuple)) else None
+    if isinstance(e, ast.ListComp) and len(vals) == 1 and ra_ is not None and ra_.kind == "range" and len(ra_.args) == 1 and \
+       (elt.as_int() is not None or elt == as_poly(NONE)):
+      return mk("listrep", P("seq", elt), as_poly(ra_.args[0]))          # [c for _ in range(n)] is [c] * n for a number / None
     return Poly.atom(Atom("map", elt, bv, as_poly(it)))
 
   def ev_ListComp(self, e, st):
